@@ -282,6 +282,57 @@ def run(tier, seed):
         if why:
             fails += 1
             rep.violation("adapters:sync", {"input": name, "why": why})
+    # callable objects that compare equal (and hash alike) but behave differently, and unhashable ones: each gets its own wrapper
+    class Offset:
+        def __init__(self, name, by):
+            self.name, self.by = name, by
+
+        def __eq__(self, other):
+            return isinstance(other, Offset) and other.name == self.name
+
+        def __hash__(self):
+            return hash(self.name)
+
+        def __call__(self, x):
+            return x + self.by
+
+    class Unhashable:
+        __hash__ = None
+
+        def __call__(self, x):
+            return x * 3
+    try:
+        got_eq = [drive(a.sync(Offset("shift", 1))(5)), drive(a.sync(Offset("shift", 100))(5)), drive(a.sync(Unhashable())(5))]
+        why_eq = None if got_eq == [6, 105, 15] else "results %r, expected [6, 105, 15]" % (got_eq,)
+    except BaseException as e:  # noqa
+        why_eq = "failed with %r" % (e,)
+    rep.count(("sync-equal-callables",), True)
+    if why_eq:
+        fails += 1
+        rep.violation("adapters:sync", {"input": "equal-but-distinct and unhashable callable objects", "why": why_eq})
+    # apply hands back what the function returned -- also when that is itself an awaitable (it is the function's result)
+
+    class Deferred:
+        def __init__(self):
+            self.started = False
+
+        def __await__(self):
+            self.started = True
+            return 6
+            yield
+
+    async def _one():
+        return 1
+    d_ = Deferred()
+    try:
+        r_ = drive(a.apply(lambda x, y=0: d_, _one(), y=_one()))
+        why_ap = None if r_ is d_ and not d_.started else "apply returned %r (the function's awaitable result was %s)" % (r_, "awaited" if d_.started else "not returned")
+    except BaseException as e:  # noqa
+        why_ap = "failed with %r" % (e,)
+    rep.count(("apply-awaitable-result",), True)
+    if why_ap:
+        fails += 1
+        rep.violation("adapters:apply", {"why": why_ap})
     # a callable whose results are sometimes plain and sometimes awaitable: every call individually gives the result
     for first_plain in (True, False):
         seq = [first_plain, not first_plain, not first_plain, first_plain]
